@@ -211,6 +211,18 @@ def run_case(ctx, case):
     return True, core.digest([case["seed"], "features"])
   # labels
   vk, v = _values(rng)
+  label_form = str(rng.choice(["numeric", "numeric", "numeric", "bool", "str"]))
+  if label_form != "numeric":
+    # class labels that are not numbers (the helper documents them: keypoints over the class indices 0..n_classes-1)
+    classes = ["cat", "dog", "eel", "fox"][:int(rng.randint(2, 5))] if label_form == "str" else [False, True]
+    raw = [classes[int(j)] for j in rng.randint(0, len(classes), size=max(3, len(v)))]
+    for c_ in classes:
+      raw[int(rng.randint(len(raw)))] = c_
+    labels_in = np.array(raw) if rng.rand() < .7 else list(raw)
+    v = np.arange(len(set(raw)), dtype=float)          # what the keypoints are computed over
+    ctx.cls("labels:" + label_form)
+  else:
+    labels_in = v
   k = int(rng.choice([2, 5, 10]))
   mode = str(rng.choice(["quantiles", "uniform"]))
   b = str(rng.choice(["none", "both", "min"]))
@@ -219,9 +231,9 @@ def run_case(ctx, case):
   logits = bool(rng.rand() < .25)
   cfg = tfl.configs.CalibratedLatticeConfig(output_calibration=True, output_calibration_num_keypoints=k, output_initialization=mode,
                                             output_min=omin, output_max=omax)
-  w = rng.uniform(.1, 2, size=len(v)) if rng.rand() < .5 else None
+  w = rng.uniform(.1, 2, size=len(labels_in)) if rng.rand() < .5 else None
   try:
-    kp = pl.compute_label_keypoints(cfg, v, logits_output=logits, weights=w)
+    kp = pl.compute_label_keypoints(cfg, labels_in, logits_output=logits, weights=w)
     pl.set_label_keypoints(cfg, kp)
   except Exception as e:
     ctx.check("label-helper/valid", False, "label keypoint helper raised %s: %s" % (type(e).__name__, str(e)[:150]),
